@@ -1800,7 +1800,7 @@ def gen_C03(rng, tier, changed):
                     for _ in range(1 if tier == 'quick' else 4):
                         scr = [-1, 2] + safe_nested_script(rng, rng.randint(6, 30), nvec)
                         cases.append(KCase(f'C03-z{kk}', 'itermut_zst', [al, r, c, order, axis] + scr,
-                                           meta=dict(no_model=True, want=sim_nested_huge(r, c, axis, scr))))
+                                           meta=dict(want=sim_nested_huge(r, c, axis, scr))))
                         kk += 1
     return cases
 
@@ -1833,7 +1833,7 @@ def sim_nested_huge(r, c, axis, script):
                     v[0] += 1
                 else:
                     v[1] -= 1
-                out.append('Some(_)')
+                out.append('Some(())')
             else:
                 out.append('None')
     return '[' + ','.join(out) + ']'
